@@ -363,7 +363,7 @@ fn idempotence_diff(a: &Module, b: &Module) -> String {
 pub fn run(args: &Args, rec: &mut Recorder) {
     rec.rule = "evaluation = one cleanup() of a generated module (consistent reference graph with chains and cycles among SUB_GROUP / SUB_FUNCTION / REF_UNIT, helpers referenced only from unusual sites, plus knobs: unused helpers and helper chains, dangling references, empty groups/functions) judged by (1) protected kinds never removed and their non-reference content unchanged, (2) no element removed that a surviving element referred to (every site of the frozen table), (3) no COMPU_METHOD / conversion table / UNIT / RECORD_LAYOUT survives unreferenced, (4) cleanup(cleanup(M)) == cleanup(M), (5) a consistent file has no dangling reference afterwards. distinct_nontrivial = distinct module texts by content hash".into();
     rec.assumptions.push("references (not elements) that dangle before cleanup may be removed or replaced by NO_COMPU_METHOD; whether an unreferenced non-empty GROUP/FUNCTION survives is not judged; mutual references count as references".into());
-    let total: u64 = if args.thorough { 500_000 } else { 20_000 };
+    let total: u64 = if args.thorough { 500_000 } else { 60_000 };
     run_cases(args, rec, total, crate::util::reset_budget, |rng, case, rec| {
         let cfg = ModCfg {
             size: rng.urange(1, 5),
